@@ -253,7 +253,7 @@ fn split_base<'a>(stack: &str, bases: &[&'a str]) -> Option<(String, &'a str)> {
     None
 }
 
-const SYNC_BASES: &[&str] = &["seek(mut(cursor))", "seek(box(cursor))", "seek(cursor)", "cursor"];
+const SYNC_BASES: &[&str] = &["seek(mut(cursor))", "seek(box(cursor))", "seek(cursor)", "seek(vcur)", "vcur", "cursor"];
 
 fn sync_stack<J: SyncJob>(stack: &str, data: Vec<u8>, pos: u64, c: Caps, job: J) -> String {
     let Some((layers, base)) = split_base(stack, SYNC_BASES) else {
@@ -266,11 +266,13 @@ fn sync_stack<J: SyncJob>(stack: &str, data: Vec<u8>, pos: u64, c: Caps, job: J)
         "seek(cursor)" => sync_layers(&layers, SeekSkipAdapter(cur), c, job),
         "seek(mut(cursor))" => sync_layers(&layers, SeekSkipAdapter(&mut cur), c, job),
         "seek(box(cursor))" => sync_layers(&layers, SeekSkipAdapter(Box::new(cur)), c, job),
+        "vcur" => sync_layers(&layers, VCur::current(), c, job),
+        "seek(vcur)" => sync_layers(&layers, SeekSkipAdapter(VCur::current()), c, job),
         _ => "unknown-stack".into(),
     }
 }
 
-const ASYNC_BASES: &[&str] = &["seek(mut(fcursor))", "seek(fcursor)", "fcursor", "seek(pc)", "native"];
+const ASYNC_BASES: &[&str] = &["seek(mut(fcursor))", "seek(fcursor)", "fcursor", "seek(pc)", "native", "seek(avcur)"];
 
 /// an async stack: layers over fcursor | seek(fcursor) | seek(pc) | native | ain(<sync stack>)
 fn async_stack<J: AsyncJob>(stack: &str, data: Vec<u8>, pos: u64, sh: &Rc<RefCell<Shared>>, c: Caps, job: J) -> String {
@@ -322,12 +324,13 @@ fn async_stack<J: AsyncJob>(stack: &str, data: Vec<u8>, pos: u64, sh: &Rc<RefCel
         }
         "seek(pc)" => async_layers(&layers, SeekSkipAdapter(PendingCursor { cur: std_cur, sh: sh.clone() }), c, job),
         "native" => async_layers(&layers, PendingNative { cur: std_cur, sh: sh.clone() }, c, job),
+        "seek(avcur)" => async_layers(&layers, SeekSkipAdapter(AVCur(VCur::current())), c, job),
         _ => "unknown-stack".into(),
     }
 }
 
 fn is_async_stack(stack: &str) -> bool {
-    stack.contains("fcursor") || stack.contains("ain(") || stack.contains("pc)") || stack.contains("native")
+    stack.contains("fcursor") || stack.contains("ain(") || stack.contains("pc)") || stack.contains("native") || stack.contains("avcur")
 }
 
 fn parse_caps(s: &str) -> Vec<usize> {
@@ -335,6 +338,91 @@ fn parse_caps(s: &str) -> Vec<usize> {
         vec![]
     } else {
         s.split(',').map(|x| x.parse().unwrap()).collect()
+    }
+}
+
+// ------------------------------------------------------------------------------------------------ sparse virtual stream
+
+thread_local! {
+    static VSPEC: RefCell<Option<(u64, Vec<(u64, Vec<u8>)>)>> = const { RefCell::new(None) };
+}
+
+/// Read + Seek over `len` virtual bytes (up to u64::MAX): extents of real bytes over a zero background; seek semantics
+/// of std::io::Cursor (Start: any u64; Current/End: checked_add_signed, failure = InvalidInput). Lets a skip of more
+/// than i64::MAX bytes stay within the stream.
+struct VCur {
+    len: u64,
+    exts: Vec<(u64, Vec<u8>)>,
+    pos: u64,
+}
+
+impl VCur {
+    fn current() -> VCur {
+        let (len, exts) = VSPEC.with(|v| v.borrow().clone()).expect("no sparse stream given");
+        VCur { len, exts, pos: 0 }
+    }
+}
+
+impl Read for VCur {
+    fn read(&mut self, buf: &mut [u8]) -> io::Result<usize> {
+        if self.pos >= self.len {
+            return Ok(0);
+        }
+        let n = (buf.len() as u64).min(self.len - self.pos) as usize;
+        for (i, b) in buf[..n].iter_mut().enumerate() {
+            let off = self.pos + i as u64;
+            *b = self.exts.iter().find(|(o, d)| off >= *o && off - *o < d.len() as u64).map_or(0, |(o, d)| d[(off - *o) as usize]);
+        }
+        self.pos += n as u64;
+        Ok(n)
+    }
+}
+
+impl Seek for VCur {
+    fn seek(&mut self, style: SeekFrom) -> io::Result<u64> {
+        let (base, offset) = match style {
+            SeekFrom::Start(n) => {
+                self.pos = n;
+                return Ok(n);
+            }
+            SeekFrom::End(n) => (self.len, n),
+            SeekFrom::Current(n) => (self.pos, n),
+        };
+        match base.checked_add_signed(offset) {
+            Some(n) => {
+                self.pos = n;
+                Ok(n)
+            }
+            None => Err(io::Error::new(io::ErrorKind::InvalidInput, "invalid seek to a negative or overflowing position")),
+        }
+    }
+    fn stream_position(&mut self) -> io::Result<u64> {
+        Ok(self.pos)
+    }
+}
+
+/// like mediasan's `skip_via_adapter!` (what `impl Skip for Cursor/File` do)
+impl Skip for VCur {
+    fn skip(&mut self, amount: u64) -> io::Result<()> {
+        SeekSkipAdapter(self).skip(amount)
+    }
+    fn stream_position(&mut self) -> io::Result<u64> {
+        SeekSkipAdapter(self).stream_position()
+    }
+    fn stream_len(&mut self) -> io::Result<u64> {
+        SeekSkipAdapter(self).stream_len()
+    }
+}
+
+struct AVCur(VCur);
+impl AsyncRead for AVCur {
+    fn poll_read(mut self: Pin<&mut Self>, _cx: &mut Context<'_>, buf: &mut [u8]) -> Poll<io::Result<usize>> {
+        Poll::Ready(self.0.read(buf))
+    }
+}
+impl AsyncSeek for AVCur {
+    fn poll_seek(mut self: Pin<&mut Self>, _cx: &mut Context<'_>, pos: SeekFrom) -> Poll<io::Result<u64>> {
+        Poll::Ready(self.0.seek(pos))
     }
 }
 
@@ -359,7 +447,23 @@ impl AsyncJob for HistAsync {
 }
 
 fn hist(args: &[&str]) -> String {
-    let (stack, caps, data, ops) = (args[0], parse_caps(args[1]), common::unhex(args[2]), parse_ops(args[3]));
+    let (stack, caps, ops) = (args[0], parse_caps(args[1]), parse_ops(args[3]));
+    // data: hex, or V<len>@<off>:<hex>@<off>:<hex>... for the sparse virtual stream (bases vcur / avcur)
+    let data = match args[2].strip_prefix('V') {
+        Some(spec) => {
+            let mut it = spec.split('@');
+            let len: u64 = it.next().unwrap().parse().unwrap();
+            let exts = it
+                .map(|e| {
+                    let (o, h) = e.split_once(':').unwrap();
+                    (o.parse::<u64>().unwrap(), common::unhex(h))
+                })
+                .collect();
+            VSPEC.with(|v| *v.borrow_mut() = Some((len, exts)));
+            vec![]
+        }
+        None => common::unhex(args[2]),
+    };
     let mut it = caps.into_iter();
     if is_async_stack(stack) {
         let sh = Rc::new(RefCell::new(Shared::default()));
